@@ -567,6 +567,9 @@ func (env *SpecEnv) changedLoopName(name string) (Value, bool) {
 }
 
 func (fr *Frame) localByName(name string) *ssa.Alloc {
+	if a, ok := fr.synthLocals[name]; ok {
+		return a
+	}
 	want := name
 	nth := 1
 	if i := strings.Index(name, "#"); i >= 0 {
